@@ -25,8 +25,8 @@ def det_scenarios(seed, tier):
     modular = [{"seed": seed * 977 + 1, "popsize": 12, "executor": "seq", "start": "modular", "fitness": 6, "epochs": 8, "preset": 5},
                {"seed": seed * 977 + 2, "popsize": 20, "executor": "seq", "start": "modular", "fitness": 7, "epochs": 8, "preset": 0}]
     # structure-only speciation (no mutation-number term): exact ties between equally compatible species are common
-    ties = [{"seed": seed * 613 + k, "popsize": 60, "executor": "seq", "start": "xor", "fitness": 7, "epochs": 20, "preset": [3, 0, 5, 1][k],
-             "override": {"mutdiff": 0, "thr": 2.5, "addnode": 0.2, "addlink": 0.3}} for k in range(4)]
+    ties = [{"seed": seed * 613 + k, "popsize": 60, "executor": "seq", "start": "xor", "fitness": 7, "epochs": 20, "preset": [3, 0, 5, 1][k % 4],
+             "override": {"mutdiff": 0, "thr": [2.5, 3.5][k // 4], "addnode": 0.2, "addlink": 0.3}} for k in range(8)]
     modular = modular + ties
     if tier == "quick":
         picked = scs[::4][:10] + modular
